@@ -8,7 +8,8 @@
     [step_self] = the per-action combination; [react_all] = one [react] per occurrence, in order;
     [step_abs] = the abstract per-argument fold; [enc k] = what a Count flag holds after k occurrences. *)
 From ClapModel Require Import Base.Bytes Base.Machine.
-From ClapModel Require Import Parse.Cmd Parse.Build Parse.Valid Parse.Matcher Parse.Errors Parse.Parser ParseProofs.Actions ParseProofs.ActionsLoop ParseProofs.ActionsTokens ParseProofs.ActionsTop.
+From ClapModel Require Import Parse.Cmd Parse.Build Parse.Valid Parse.Matcher Parse.Errors Parse.Parser ParseProofs.Actions ParseProofs.ActionsLoop ParseProofs.ActionsTokens ParseProofs.ActionsTop ParseProofs.ActionsWide ParseProofs.ActionsWideTop ParseProofs.ActionsGraph ParseProofs.ActionsRequired ParseProofs.ActionsChain.
+From ClapModel Require ParseProofs.Chain ParseProofs.Globals ParseProofs.UnparseTree.
 From Coq Require Import ZArith.
 Open Scope N_scope.
 
@@ -371,3 +372,407 @@ Theorem C07_top_get_flag : forall c0 bin toks os m a b,
      get_flag_view m (a_id a) = Some (negb b)).
 Proof. exact parse_top_get_flag. Qed.
 Print Assumptions C07_top_get_flag.
+
+(** ======== round 3: the WIDE class of lines (ParseProofs/ActionsWide.v, ActionsWideTop.v) ========
+    [woccurrences c toks] reads everything [occurrences] reads and, in addition: positional values (the positional
+    counter stepping as [Parser::parse] steps it: one occurrence per maximal run for a positional with a value range,
+    one occurrence PER VALUE for an [Append] positional with [num_args(1)]), the escape [--] (trailing index recorded),
+    options with ANY value range (separate values collected until the range is full / a flag-like token / a value
+    terminator / the end of the line; a value-less occurrence is an occurrence without raw value).  The scanner
+    mirrors the loop's control state (parse state, positional counter, trailing flag, pending buffer) and nothing of
+    the matcher.  Conditions checked by the scanner itself: no [allow_missing_positional], no [last] argument, only
+    the highest positional may be multiple (no counter correction); options do not [require_equals]. *)
+Theorem C07_wide_loop : forall c toks os vaf st,
+  no_hyphen_args c = true -> ids_ok c -> woccurrences c toks = Some os ->
+  fs_skip st = 0 -> mt_pending (mt st) = None ->
+  exists r : res ps,
+    parse_loop c toks (mkL PSValuesDone 1 vaf false) st = (do s <- r; ROk (LDone s)) /\
+    (do s <- r; resolve_pending c s) = (do s <- react_all c os st; resolve_pending c s).
+Proof. exact parse_loop_woccurrences. Qed.
+Print Assumptions C07_wide_loop.
+
+(** the simulation behind it, from ANY control state of the loop: [wrel c w st] = the skip counter is clear and the
+    pending buffer of [st] holds exactly the scanner's pending occurrence *)
+Theorem C07_wide_loop_any_state : forall c, no_hyphen_args c = true -> ids_ok c ->
+  forall toks w os, wscan c w toks = Some os ->
+  forall vaf st, wrel c w st ->
+  exists r : res ps,
+    parse_loop c toks (mkL (w_pst w) (w_pos w) vaf (w_trailing w)) st = (do s <- r; ROk (LDone s)) /\
+    (do s <- r; resolve_pending c s) = (do s <- react_all c os (clear_pending st); resolve_pending c s).
+Proof. exact parse_loop_wscan. Qed.
+Print Assumptions C07_wide_loop_any_state.
+
+Theorem C07_wide_scanned : forall c toks os, woccurrences c toks = Some os ->
+  Forall (fun o => In (o_arg o) (c_args c) /\ o_src o = SCmdLine /\ (a_takes_value (o_arg o) = false -> o_raw o = [])) os.
+Proof. exact woccurrences_scanned. Qed.
+Print Assumptions C07_wide_scanned.
+
+Theorem C07_wide_top_occurrences : forall c0 bin toks os m,
+  let c := build_self (with_bin c0 bin) in
+  wide_class c0 bin toks os ->
+  parse_top c0 (bin :: toks) = OOk m ->
+  exists st1, react_all c os ps_new = ROk st1 /\ ms_sub m = None /\
+    forall a, In a (c_args c) ->
+      match get (a_id a) (mt st1) with
+      | Some e => fm_get (a_id a) (ms_args m) = Some e /\ m_source e = Some SCmdLine
+      | None => forall e, fm_get (a_id a) (ms_args m) = Some e ->
+                  m_source e = Some SEnv \/ m_source e = Some SDefault
+      end.
+Proof. exact wide_top_occurrences. Qed.
+Print Assumptions C07_wide_top_occurrences.
+
+Theorem C07_wide_top_denote : forall c0 bin toks os m a,
+  let c := build_self (with_bin c0 bin) in
+  wide_class c0 bin toks os -> parse_top c0 (bin :: toks) = OOk m -> In a (c_args c) ->
+  match fold_left (step_abs c (a_id a)) os None with
+  | Some g => exists e, fm_get (a_id a) (ms_args m) = Some e /\ m_raw e = g /\ m_source e = Some SCmdLine
+  | None => forall e, fm_get (a_id a) (ms_args m) = Some e -> m_source e = Some SEnv \/ m_source e = Some SDefault
+  end.
+Proof. exact wide_top_denote. Qed.
+Print Assumptions C07_wide_top_denote.
+
+Theorem C07_wide_top_count : forall c0 bin toks os m a,
+  let c := build_self (with_bin c0 bin) in
+  wide_class c0 bin toks os -> parse_top c0 (bin :: toks) = OOk m -> In a (c_args c) ->
+  count_flag a -> override_free c (a_id a) ->
+  let n := count_occ (a_id a) os in
+  ((0 < n)%nat -> exists e, fm_get (a_id a) (ms_args m) = Some e /\
+       m_raw e = [[n_to_dec (N.min (N.of_nat n) 255)]] /\ m_source e = Some SCmdLine) /\
+  (n = 0%nat -> forall e, fm_get (a_id a) (ms_args m) = Some e -> m_source e = Some SEnv \/ m_source e = Some SDefault).
+Proof. exact wide_top_count. Qed.
+Print Assumptions C07_wide_top_count.
+
+(** Append (option or positional): one group per occurrence, in command-line order - value-less occurrences are
+    empty groups, a run of a multi-valued positional is one group, every value of a one-value-per-occurrence
+    positional is its own group *)
+Theorem C07_wide_top_append : forall c0 bin toks os m a,
+  let c := build_self (with_bin c0 bin) in
+  wide_class c0 bin toks os -> parse_top c0 (bin :: toks) = OOk m -> In a (c_args c) ->
+  a_get_action a = AAppend -> (forall b, In b (c_args c) -> overridden c b (a_id a) = false) ->
+  (0 < count_occ (a_id a) os)%nat ->
+  exists e, fm_get (a_id a) (ms_args m) = Some e /\ m_raw e = occ_groups c (a_id a) os /\ m_source e = Some SCmdLine.
+Proof. exact wide_top_append. Qed.
+Print Assumptions C07_wide_top_append.
+
+Theorem C07_wide_top_set_last : forall c0 bin toks os1 o os2 m a,
+  let c := build_self (with_bin c0 bin) in
+  wide_class c0 bin toks (os1 ++ o :: os2) -> parse_top c0 (bin :: toks) = OOk m -> In a (c_args c) ->
+  set_family a = true -> o_arg o = a -> Forall (unrelated c (a_id a)) os2 ->
+  exists e, fm_get (a_id a) (ms_args m) = Some e /\
+    m_raw e = step_self c SCmdLine a (o_vals c o) None /\ m_source e = Some SCmdLine.
+Proof. exact wide_top_set_last. Qed.
+Print Assumptions C07_wide_top_set_last.
+
+Theorem C07_wide_top_set_repeat_conflict : forall c0 bin toks os1 o os2 st vals,
+  let c := build_self (with_bin c0 bin) in
+  wide_class c0 bin toks (os1 ++ o :: os2) -> valid (with_bin c0 bin) = true ->
+  react_all c os1 ps_new = ROk st ->
+  set_family (o_arg o) = true -> fold_left (step_abs c (a_id (o_arg o))) os1 None <> None ->
+  self_override c (o_arg o) = false ->
+  verify_num_args c (o_arg o) (o_raw o) st = ROk tt -> occ_values c (o_arg o) (o_raw o) (o_ti o) = Some vals ->
+  exists e, parse_top c0 (bin :: toks) = OErr e /\ e_kind e = EArgumentConflict /\ e_arg e = a_id (o_arg o).
+Proof. exact wide_top_set_repeat_conflict. Qed.
+Print Assumptions C07_wide_top_set_repeat_conflict.
+
+Theorem C07_wide_top_override : forall c0 bin toks os1 o os2 m a,
+  let c := build_self (with_bin c0 bin) in
+  wide_class c0 bin toks (os1 ++ o :: os2) -> parse_top c0 (bin :: toks) = OOk m -> In a (c_args c) ->
+  beq (a_id (o_arg o)) (a_id a) = false -> overridden c (o_arg o) (a_id a) = true ->
+  Forall (fun o' => beq (a_id (o_arg o')) (a_id a) = false) os2 ->
+  forall e, fm_get (a_id a) (ms_args m) = Some e -> m_source e = Some SEnv \/ m_source e = Some SDefault.
+Proof. exact wide_top_override. Qed.
+Print Assumptions C07_wide_top_override.
+
+Theorem C07_wide_top_default : forall c0 bin toks os m a,
+  let c := build_self (with_bin c0 bin) in
+  wide_class c0 bin toks os -> parse_top c0 (bin :: toks) = OOk m -> In a (c_args c) ->
+  fold_left (step_abs c (a_id a)) os None = None ->
+  a_env a = None -> a_default_ifs a = [] -> a_default a <> [] -> a_delim a = None ->
+  exists e, fm_get (a_id a) (ms_args m) = Some e /\ m_raw e = [a_default a] /\ m_source e = Some SDefault.
+Proof. exact wide_top_default. Qed.
+Print Assumptions C07_wide_top_default.
+
+Theorem C07_wide_top_flag : forall c0 bin toks os m a b,
+  let c := build_self (with_bin c0 bin) in
+  wide_class c0 bin toks os -> parse_top c0 (bin :: toks) = OOk m -> In a (c_args c) ->
+  a_get_action a = flag_action b -> a_takes_value a = false -> a_delim a = None ->
+  a_default_missing a = [flag_value b] -> a_default a = [flag_value (negb b)] ->
+  (forall os1 o os2, os = os1 ++ o :: os2 -> o_arg o = a -> Forall (unrelated c (a_id a)) os2 ->
+     exists e, fm_get (a_id a) (ms_args m) = Some e /\ m_raw e = [[flag_value b]] /\ m_source e = Some SCmdLine) /\
+  (count_occ (a_id a) os = 0%nat -> a_env a = None -> a_default_ifs a = [] ->
+     exists e, fm_get (a_id a) (ms_args m) = Some e /\ m_raw e = [[flag_value (negb b)]] /\ m_source e = Some SDefault).
+Proof. exact wide_top_flag. Qed.
+Print Assumptions C07_wide_top_flag.
+
+Theorem C07_wide_top_get_count : forall c0 bin toks os m a,
+  let c := build_self (with_bin c0 bin) in
+  wide_class c0 bin toks os -> parse_top c0 (bin :: toks) = OOk m -> In a (c_args c) ->
+  count_flag a -> override_free c (a_id a) ->
+  a_default a = [[48]] -> a_env a = None -> a_default_ifs a = [] -> a_delim a = None ->
+  get_count_view m (a_id a) = Some (N.min (N.of_nat (count_occ (a_id a) os)) 255).
+Proof. exact wide_top_get_count. Qed.
+Print Assumptions C07_wide_top_get_count.
+
+Theorem C07_wide_top_get_flag : forall c0 bin toks os m a b,
+  let c := build_self (with_bin c0 bin) in
+  wide_class c0 bin toks os -> parse_top c0 (bin :: toks) = OOk m -> In a (c_args c) ->
+  a_get_action a = flag_action b -> a_takes_value a = false -> a_delim a = None ->
+  a_default_missing a = [flag_value b] -> a_default a = [flag_value (negb b)] ->
+  (forall os1 o os2, os = os1 ++ o :: os2 -> o_arg o = a -> Forall (unrelated c (a_id a)) os2 ->
+     get_flag_view m (a_id a) = Some b) /\
+  (count_occ (a_id a) os = 0%nat -> a_env a = None -> a_default_ifs a = [] ->
+     get_flag_view m (a_id a) = Some (negb b)).
+Proof. exact wide_top_get_flag. Qed.
+Print Assumptions C07_wide_top_get_flag.
+
+(** ---- two closed forms of the wide scanner, for ALL lengths ---- *)
+(** an [Append] positional taking one value per occurrence ([per_value_positional]: not [a_multiple_values], no
+    terminator, not trailing-var-arg, the command needs no counter correction): a line of n plain values is n
+    occurrences, and [parse_top] stores every value as its own group, in order - adjacent values are never merged *)
+Theorem C07_wide_positional_scan : forall c a vals, per_value_positional c 1 a -> value_tokens c vals ->
+  woccurrences c vals = Some (map (pos_occ a) vals).
+Proof. exact woccurrences_per_value. Qed.
+Print Assumptions C07_wide_positional_scan.
+
+Theorem C07_wide_positional_per_value : forall c0 bin vals m a,
+  let c := build_self (with_bin c0 bin) in
+  is_set s_no_binary_name c0 = false -> is_set s_ignore_errors c = false -> no_hyphen_args c = true ->
+  per_value_positional c 1 a -> value_tokens c vals -> vals <> [] ->
+  a_get_action a = AAppend -> a_delim a = None -> (forall b, In b (c_args c) -> overridden c b (a_id a) = false) ->
+  parse_top c0 (bin :: vals) = OOk m ->
+  exists e, fm_get (a_id a) (ms_args m) = Some e /\ m_raw e = map (fun v => [v]) vals /\ m_source e = Some SCmdLine.
+Proof. exact wide_top_positional_per_value. Qed.
+Print Assumptions C07_wide_positional_per_value.
+
+(** a positional with a value RANGE ([run_positional]: [a_multiple_values], no terminator, not trailing-var-arg): a run
+    of adjacent values is ONE occurrence; [parse_top] stores one group holding all of them, in order *)
+Theorem C07_wide_positional_run_scan : forall c a v vals, run_positional c 1 a -> value_tokens c (v :: vals) ->
+  woccurrences c (v :: vals) = Some [mkOcc (Some IIndex) SCmdLine a (v :: vals) None].
+Proof. exact woccurrences_run. Qed.
+Print Assumptions C07_wide_positional_run_scan.
+
+Theorem C07_wide_positional_run : forall c0 bin v vals m a,
+  let c := build_self (with_bin c0 bin) in
+  is_set s_no_binary_name c0 = false -> is_set s_ignore_errors c = false -> no_hyphen_args c = true ->
+  run_positional c 1 a -> value_tokens c (v :: vals) ->
+  a_get_action a = AAppend -> a_delim a = None -> (forall b, In b (c_args c) -> overridden c b (a_id a) = false) ->
+  parse_top c0 (bin :: v :: vals) = OOk m ->
+  exists e, fm_get (a_id a) (ms_args m) = Some e /\ m_raw e = [v :: vals] /\ m_source e = Some SCmdLine.
+Proof. exact wide_top_positional_run. Qed.
+Print Assumptions C07_wide_positional_run.
+
+(** an option given n times WITHOUT a value ([bare_token]: the token is [--opt] / [-o] of an option of the class):
+    n occurrences without raw value; for an [Append] option without [default_missing_value] [parse_top] stores n
+    EMPTY groups - [get_occurrences] = one group per occurrence, none dropped, merged or reused *)
+Theorem C07_wide_bare_scan : forall c tok idn a n, bare_token c tok idn a ->
+  woccurrences c (repeat tok n) = Some (repeat (tok_occ idn a []) n).
+Proof. exact woccurrences_bare. Qed.
+Print Assumptions C07_wide_bare_scan.
+
+Theorem C07_wide_bare_append : forall c0 bin tok idn a n m,
+  let c := build_self (with_bin c0 bin) in
+  is_set s_no_binary_name c0 = false -> is_set s_ignore_errors c = false -> no_hyphen_args c = true ->
+  bare_token c tok idn a -> (0 < n)%nat ->
+  a_get_action a = AAppend -> a_default_missing a = [] -> (forall b, In b (c_args c) -> overridden c b (a_id a) = false) ->
+  parse_top c0 (bin :: repeat tok n) = OOk m ->
+  exists e, fm_get (a_id a) (ms_args m) = Some e /\ m_raw e = repeat [] n /\ m_source e = Some SCmdLine.
+Proof. exact wide_top_bare_append. Qed.
+Print Assumptions C07_wide_bare_append.
+
+(** ======== round 3: arbitrary override graphs (ParseProofs/ActionsGraph.v) ========
+    [overrider c i o] = [o] is a command-line occurrence of ANOTHER argument in an override relation with [i], declared
+    on either side; [live c i os] = the occurrences after the LAST overrider of [i] (all of [os] when there is none).
+    However many arguments are related to [i] and in whatever order they appear, what [i] holds after the line is the
+    fold of the live occurrences alone. *)
+Theorem C07_live_suffix : forall c i os,
+  (existsb (overrider c i) os = false /\ live c i os = os) \/
+  (exists pre o, os = pre ++ o :: live c i os /\ overrider c i o = true).
+Proof. exact live_suffix. Qed.
+Print Assumptions C07_live_suffix.
+
+Theorem C07_live_no_overrider : forall c i os, existsb (overrider c i) (live c i os) = false.
+Proof. exact live_no_overrider. Qed.
+Print Assumptions C07_live_no_overrider.
+
+Theorem C07_override_graph_fold : forall c i os,
+  fold_left (step_abs c i) os None = fold_left (step_abs c i) (live c i os) None.
+Proof. exact abs_live. Qed.
+Print Assumptions C07_override_graph_fold.
+
+Theorem C07_top_override_graph : forall c0 bin toks os m a,
+  let c := build_self (with_bin c0 bin) in
+  top_class c0 bin toks os -> parse_top c0 (bin :: toks) = OOk m -> In a (c_args c) ->
+  match fold_left (step_abs c (a_id a)) (live c (a_id a) os) None with
+  | Some g => exists e, fm_get (a_id a) (ms_args m) = Some e /\ m_raw e = g /\ m_source e = Some SCmdLine
+  | None => forall e, fm_get (a_id a) (ms_args m) = Some e -> m_source e = Some SEnv \/ m_source e = Some SDefault
+  end.
+Proof. exact top_override_graph. Qed.
+Print Assumptions C07_top_override_graph.
+
+Theorem C07_wide_override_graph : forall c0 bin toks os m a,
+  let c := build_self (with_bin c0 bin) in
+  wide_class c0 bin toks os -> parse_top c0 (bin :: toks) = OOk m -> In a (c_args c) ->
+  match fold_left (step_abs c (a_id a)) (live c (a_id a) os) None with
+  | Some g => exists e, fm_get (a_id a) (ms_args m) = Some e /\ m_raw e = g /\ m_source e = Some SCmdLine
+  | None => forall e, fm_get (a_id a) (ms_args m) = Some e -> m_source e = Some SEnv \/ m_source e = Some SDefault
+  end.
+Proof. exact wide_override_graph. Qed.
+Print Assumptions C07_wide_override_graph.
+
+(** Count in ANY override graph (no [override_free] hypothesis): the number of occurrences after the last overrider *)
+Theorem C07_wide_count_graph : forall c0 bin toks os m a,
+  let c := build_self (with_bin c0 bin) in
+  wide_class c0 bin toks os -> parse_top c0 (bin :: toks) = OOk m -> In a (c_args c) ->
+  count_flag a ->
+  let n := count_occ (a_id a) (live c (a_id a) os) in
+  ((0 < n)%nat -> exists e, fm_get (a_id a) (ms_args m) = Some e /\
+       m_raw e = [[n_to_dec (N.min (N.of_nat n) 255)]] /\ m_source e = Some SCmdLine) /\
+  (n = 0%nat -> forall e, fm_get (a_id a) (ms_args m) = Some e -> m_source e = Some SEnv \/ m_source e = Some SDefault).
+Proof. exact wide_count_graph. Qed.
+Print Assumptions C07_wide_count_graph.
+
+(** Append in ANY override graph (the argument does not override itself): the live occurrences' values, one group each *)
+Theorem C07_wide_append_graph : forall c0 bin toks os m a,
+  let c := build_self (with_bin c0 bin) in
+  wide_class c0 bin toks os -> parse_top c0 (bin :: toks) = OOk m -> In a (c_args c) ->
+  a_get_action a = AAppend -> overridden c a (a_id a) = false ->
+  let lv := live c (a_id a) os in
+  ((0 < count_occ (a_id a) lv)%nat ->
+     exists e, fm_get (a_id a) (ms_args m) = Some e /\ m_raw e = occ_groups c (a_id a) lv /\ m_source e = Some SCmdLine) /\
+  (count_occ (a_id a) lv = 0%nat ->
+     forall e, fm_get (a_id a) (ms_args m) = Some e -> m_source e = Some SEnv \/ m_source e = Some SDefault).
+Proof. exact wide_append_graph. Qed.
+Print Assumptions C07_wide_append_graph.
+
+(** Set / SetTrue / SetFalse in ANY override graph: the last own occurrence after the last overrider decides
+    ([last_own]); when there is none only env / default entries remain *)
+Theorem C07_wide_set_graph : forall c0 bin toks os m a,
+  let c := build_self (with_bin c0 bin) in
+  wide_class c0 bin toks os -> parse_top c0 (bin :: toks) = OOk m -> In a (c_args c) ->
+  set_family a = true ->
+  match last_own (a_id a) (live c (a_id a) os) with
+  | Some o => exists e, fm_get (a_id a) (ms_args m) = Some e /\
+                m_raw e = step_self c SCmdLine a (o_vals c o) None /\ m_source e = Some SCmdLine
+  | None => forall e, fm_get (a_id a) (ms_args m) = Some e -> m_source e = Some SEnv \/ m_source e = Some SDefault
+  end.
+Proof. exact wide_set_graph. Qed.
+Print Assumptions C07_wide_set_graph.
+
+(** ======== round 3: the default of a flag comes from [Arg::_build], required or not (ParseProofs/ActionsRequired.v) ======== *)
+(** every argument of the (unbuilt) definition is in the built command as [_build] left it *)
+Theorem C07_build_self_from : forall c a0, s_built (c_set c) = false -> In a0 (c_args c) ->
+  exists a, In a (c_args (build_self c)) /\ built_from a0 a.
+Proof. exact build_self_from. Qed.
+Print Assumptions C07_build_self_from.
+
+Theorem C07_built_flag_default : forall c a0 b, s_built (c_set c) = false -> In a0 (c_args c) ->
+  a_action a0 = Some (flag_action b) -> a_default a0 = [] -> a_default_missing a0 = [] ->
+  exists a, In a (c_args (build_self c)) /\ a_id a = a_id a0 /\ a_required a = a_required a0 /\
+    a_get_action a = flag_action b /\ a_default a = [flag_value (negb b)] /\ a_default_missing a = [flag_value b] /\
+    a_env a = a_env a0 /\ a_default_ifs a = a_default_ifs a0 /\ a_delim a = a_delim a0.
+Proof. exact built_flag_default. Qed.
+Print Assumptions C07_built_flag_default.
+
+Theorem C07_built_count_default : forall c a0, s_built (c_set c) = false -> In a0 (c_args c) ->
+  a_action a0 = Some ACount -> a_default a0 = [] ->
+  exists a, In a (c_args (build_self c)) /\ a_id a = a_id a0 /\ a_required a = a_required a0 /\
+    a_get_action a = ACount /\ a_default a = [[48]] /\
+    a_env a = a_env a0 /\ a_default_ifs a = a_default_ifs a0 /\ a_delim a = a_delim a0.
+Proof. exact built_count_default. Qed.
+Print Assumptions C07_built_count_default.
+
+(** a flag of the definition - [a_required a0] is NOT constrained - whose occurrences were removed by a later argument in
+    an override relation with it reports the action's default, source DefaultValue; [get_flag] reads [negb b] *)
+Theorem C07_wide_overridden_flag_default : forall c0 bin toks os1 o os2 m a0 b,
+  let c := build_self (with_bin c0 bin) in
+  wide_class c0 bin toks (os1 ++ o :: os2) -> parse_top c0 (bin :: toks) = OOk m ->
+  s_built (c_set c0) = false -> In a0 (c_args c0) ->
+  a_action a0 = Some (flag_action b) -> a_default a0 = [] -> a_default_missing a0 = [] ->
+  a_env a0 = None -> a_default_ifs a0 = [] -> a_delim a0 = None ->
+  beq (a_id (o_arg o)) (a_id a0) = false -> overridden c (o_arg o) (a_id a0) = true ->
+  Forall (fun o' => beq (a_id (o_arg o')) (a_id a0) = false) os2 ->
+  exists e, fm_get (a_id a0) (ms_args m) = Some e /\ m_raw e = [[flag_value (negb b)]] /\ m_source e = Some SDefault /\
+            get_flag_view m (a_id a0) = Some (negb b).
+Proof. exact wide_overridden_flag_default. Qed.
+Print Assumptions C07_wide_overridden_flag_default.
+
+(** ======== round 3: lines that select subcommands - every level of the chain (ParseProofs/ActionsChain.v) ========
+    [cline c toks lv]: [toks] = `pre_0 n_1 pre_1 ... n_k pre_k` for the built command [c]; every inner [pre_i] is an
+    option prefix of its level (C09's class [Chain.prefix_ok]) read by the wide scanner, every [n_i] selects a child
+    ([Chain.sel]), the LAST level is any line of the wide class (positionals, [--], multi-valued options); [lv] lists per
+    level the built command and the scanned occurrences.  [level_form c os args]: per argument of [c], [args] holds the
+    entry the fold of [react] over [os] leaves (source CommandLine), else only env / default entries.  Statements are
+    about [get_matches_with] (before the globals merge), like C09_chain. *)
+Theorem C07_chain_levels : forall c toks lv, cline c toks lv ->
+  forall f st, get_matches_with f c toks ps_new = ROk st ->
+  Forall2 (fun p args => level_form (fst p) (snd p) args) lv (Globals.levels (into_inner (mt st))) /\
+  Globals.chain (into_inner (mt st)) = map (fun p => c_name (fst p)) (tl lv).
+Proof. exact chain_level_forms. Qed.
+Print Assumptions C07_chain_levels.
+
+Theorem C07_cline_levels_ok : forall c toks lv, cline c toks lv ->
+  Forall (fun p => assert_app (fst p) = true /\ Forall (wscanned (fst p)) (snd p)) lv.
+Proof. exact cline_levels_ok. Qed.
+Print Assumptions C07_cline_levels_ok.
+
+(** one level that selects a subcommand: its entries are those of its own prefix, whatever follows *)
+Theorem C07_level_sub : forall c pre F tok n f rest st os,
+  Chain.prefix_ok c pre F -> Chain.sel c tok n -> Chain.lvl_ok c ->
+  no_hyphen_args c = true -> assert_app c = true -> woccurrences c pre = Some os ->
+  get_matches_with (S f) c (pre ++ tok :: rest) ps_new = ROk st ->
+  level_form c os (mt_args (mt st)).
+Proof. exact level_sub_form. Qed.
+Print Assumptions C07_level_sub.
+
+(** the closed forms at a level, any override graph *)
+Theorem C07_level_denote : forall c os args a, assert_app c = true -> Forall (wscanned c) os -> level_form c os args ->
+  In a (c_args c) ->
+  match fold_left (step_abs c (a_id a)) os None with
+  | Some g => exists e, fm_get (a_id a) args = Some e /\ m_raw e = g /\ m_source e = Some SCmdLine
+  | None => forall e, fm_get (a_id a) args = Some e -> m_source e = Some SEnv \/ m_source e = Some SDefault
+  end.
+Proof. exact level_denote. Qed.
+Print Assumptions C07_level_denote.
+
+Theorem C07_level_count : forall c os args a, assert_app c = true -> Forall (wscanned c) os -> level_form c os args ->
+  In a (c_args c) -> count_flag a ->
+  let n := count_occ (a_id a) (live c (a_id a) os) in
+  ((0 < n)%nat -> exists e, fm_get (a_id a) args = Some e /\
+       m_raw e = [[n_to_dec (N.min (N.of_nat n) 255)]] /\ m_source e = Some SCmdLine) /\
+  (n = 0%nat -> forall e, fm_get (a_id a) args = Some e -> m_source e = Some SEnv \/ m_source e = Some SDefault).
+Proof. exact level_count. Qed.
+Print Assumptions C07_level_count.
+
+Theorem C07_level_append : forall c os args a, assert_app c = true -> Forall (wscanned c) os -> level_form c os args ->
+  In a (c_args c) -> a_get_action a = AAppend -> overridden c a (a_id a) = false ->
+  let lv := live c (a_id a) os in
+  ((0 < count_occ (a_id a) lv)%nat ->
+     exists e, fm_get (a_id a) args = Some e /\ m_raw e = occ_groups c (a_id a) lv /\ m_source e = Some SCmdLine) /\
+  (count_occ (a_id a) lv = 0%nat ->
+     forall e, fm_get (a_id a) args = Some e -> m_source e = Some SEnv \/ m_source e = Some SDefault).
+Proof. exact level_append. Qed.
+Print Assumptions C07_level_append.
+
+(** the abstract folds in closed form (used by the level theorems; any override graph) *)
+Theorem C07_count_graph_fold : forall c a os, assert_app c = true -> In a (c_args c) -> count_flag a -> Forall (wscanned c) os ->
+  fold_left (step_abs c (a_id a)) os None = enc (N.of_nat (count_occ (a_id a) (live c (a_id a) os))).
+Proof. exact abs_count_graph. Qed.
+Print Assumptions C07_count_graph_fold.
+
+Theorem C07_append_graph_fold : forall c a os, assert_app c = true -> In a (c_args c) -> a_get_action a = AAppend ->
+  overridden c a (a_id a) = false -> Forall (wscanned c) os ->
+  fold_left (step_abs c (a_id a)) os None =
+  if (0 <? count_occ (a_id a) (live c (a_id a) os))%nat then Some (occ_groups c (a_id a) (live c (a_id a) os)) else None.
+Proof. exact abs_append_graph. Qed.
+Print Assumptions C07_append_graph_fold.
+
+(** ... and at [parse_top], for trees without global arguments (C02's [no_globals]: the globals merge is the identity) *)
+Theorem C07_chain_levels_top : forall c0 bin toks lv m,
+  let c := build_self (with_bin c0 bin) in
+  is_set s_no_binary_name c0 = false -> is_set s_ignore_errors c = false ->
+  UnparseTree.no_globals (build_recursive (S (S (depth c))) (with_bin c0 bin)) = true ->
+  cline c toks lv -> parse_top c0 (bin :: toks) = OOk m ->
+  Forall2 (fun p args => level_form (fst p) (snd p) args) lv (Globals.levels m) /\
+  Globals.chain m = map (fun p => c_name (fst p)) (tl lv).
+Proof. exact chain_levels_top. Qed.
+Print Assumptions C07_chain_levels_top.
